@@ -13,12 +13,16 @@ mod games;
 mod idcheck;
 mod gen_games;
 mod master;
+mod gs3;
 mod net;
 mod quake;
 mod reader;
+mod real;
 mod settings;
+mod unreal2;
 mod valve;
 mod views;
+mod minecraft;
 
 use std::io::{BufRead, Write};
 use std::panic::{catch_unwind, AssertUnwindSafe};
@@ -39,6 +43,10 @@ fn entries() -> Vec<(&'static str, EntryFn)> {
     v.extend(games::entries());
     v.extend(idcheck::entries());
     v.extend(quake::entries());
+    v.extend(real::entries());
+    v.extend(unreal2::entries());
+    v.extend(minecraft::entries());
+    v.extend(gs3::entries());
     v
 }
 
